@@ -1007,7 +1007,7 @@ func execCase[T any, TP ez.ConfigWithConfigPath[T]](c C18Case, td *typeDef, bubb
 	}
 	first := d.View()
 	if !eq(first, full) {
-		return vrt.KeyedViolationf("precedence", "first View() = %s\nwant flag > env > file > default = %+v\n%s(file %q:\n%s)", describe(first), *full, leafDiff(td, first, full), realPath, firstContent).With(nonTrivial, labels...)
+		return precedenceViolation(first)
 	}
 	if len(recd.snapshot()) == 0 {
 		return vrt.KeyedViolationf("verify-missing", "entry point succeeded but Verify never ran on the full stack").With(nonTrivial, labels...)
